@@ -2,7 +2,6 @@ package connection
 
 import (
 	"bufio"
-	"math/rand"
 	"reflect"
 	"sync"
 	"sync/atomic"
@@ -434,16 +433,16 @@ func (s *writer) popPackets() []mqttp.IFace {
 
 func (s *writer) setTopicAlias(pkt *mqttp.Publish) {
 	if s.topicAliasMax > 0 {
-		var exists bool
-		var alias uint16
-		if alias, exists = s.topicAlias[pkt.Topic()]; !exists {
-			if s.topicAliasCurrMax < s.topicAliasMax {
-				s.topicAliasCurrMax++
-				alias = s.topicAliasCurrMax
-			} else {
-				alias = uint16(rand.Intn(int(s.topicAliasMax))) // nolint: gosec
+		alias, exists := s.topicAlias[pkt.Topic()]
+		if !exists {
+			if s.topicAliasCurrMax >= s.topicAliasMax {
+				// every alias the client allows is bound: send the topic without an alias.
+				// Rebinding an alias would leave the old topic pointing at it (and 0 is not a valid alias)
+				return
 			}
 
+			s.topicAliasCurrMax++
+			alias = s.topicAliasCurrMax
 			s.topicAlias[pkt.Topic()] = alias
 		}
 
